@@ -18,7 +18,7 @@ out = [f'''
 
 {len(rows)} changes to go-gorm/gorm were written by fresh sub-agents that saw only the text of one
 property and a scratch worktree (never /verif): {cnt[1][0]} in a first round (two per property), {cnt[2][0]} in a second
-(three per property), {cnt[3][0]} in a third, {cnt[4][0]} in a fourth and {cnt[5][0]} in a fifth (two per property each; a property
+(three per property), {cnt[3][0]} in a third, {cnt[4][0]} in a fourth, {cnt[5][0]} in a fifth and {cnt[6][0]} in a sixth (two per property each; a property
 has fewer where an agent delivered only one change that passed the whole suite, where a delivered change
 could not be confirmed, or where a change was retired, see below). From round 2 on the agents were told which
 functions earlier rounds had changed and were asked for other mechanisms: error paths, second uses of a
@@ -29,7 +29,10 @@ change both modules build, the full existing suite passes, the demonstration fai
 re-runs the property's check against every change.
 
 **Missed by the check as it stood when the change arrived: round 1: {cnt[1][1]} of {cnt[1][0]}; round 2: {cnt[2][1]} of {cnt[2][0]};
-round 3: {cnt[3][1]} of {cnt[3][0]}; round 4: {cnt[4][1]} of {cnt[4][0]}; round 5: {cnt[5][1]} of {cnt[5][0]}.** With the exceptions listed at the end, every miss was a gap in the workload, not
+round 3: {cnt[3][1]} of {cnt[3][0]}; round 4: {cnt[4][1]} of {cnt[4][0]}; round 5: {cnt[5][1]} of {cnt[5][0]}; round 6: {cnt[6][1]} of {cnt[6][0]}.** The share of misses does not fall from round to round: every round's
+testers were told what the earlier ones had changed and were steered towards rarer combinations (round 6:
+interactions of three features, rarely used entry points and flags, state kept between two calls), while
+the checks had only been extended for what had been delivered so far. With the exceptions listed at the end, every miss was a gap in the workload, not
 in the oracle: the oracle decided correctly as soon as the input was produced. All {len(rows)} are caught by the
 quick tier now (last column: the check that fires). Patches were re-based (and re-confirmed) where a
 repair of gorm touched the same lines (C04-d, C11-b, C11-d, C11-e, C14-e, C17-b). Two round-3 changes
@@ -67,6 +70,16 @@ What the misses had in common, and what was done about the pattern rather than t
   session flag (DryRun) that the generator never used.
 * **Cold/warm bias** (C13-d; round 5: C04-k): one long-lived handle meant the schema cache and the
   statement cache were always warm; half of C04's programs now start from an emptied statement cache.
+* **Round 6** (three features at once, rarely used entry points): Row() and Rows() inside blocks (C04-l),
+  a multi-batch create inside a block whose error the block survives (C04-m), result-set stepping as a
+  fault point (C05-l), real re-execution of a chain and relation selects on a handle (C06-l/m), a shared
+  handle with a leading Or executed without additions (C07-m), a soft-delete join model (C08-m), a
+  polymorphic relation taken along by a keyless delete (C09-l), RETURNING plus a second finisher on one handle
+  and empty non-nil collections (C10-l/m), non-primary referenced keys and sibling queries on a frozen chain
+  (C11-l/m), natural keys and a kept association handle (C12-l/m), a join model with hooks (C13-m), a nested
+  block that fails while the statement cache is reset (C14-m), composite-key re-reads and nullable BLOBs in
+  schema-less maps (C15-l/m), a handle bound again to context.Background() (C18-l), Scan into a smaller type
+  and batched creates in a dry run (C19-l/m), several entries of one callback name (C17-m).
 * **Rounds 4 and 5, same five patterns, further out.** Second use: a handle derived from a chain that
   stays in use (C06-k), FindInBatches run from a handle (C06-j), a second Raw on a chain value, a handle per
   goroutine (C07-j), a record reachable twice in one Create (C13-h). Error paths: zero-row statements whose
@@ -110,7 +123,12 @@ model (C12), a nil self-serializer pointer (C03); plus the known findings KF-C12
 and 5: Reset of a configured statement cache with live sessions (C14), hooks of mixed receivers (C13), a
 second Raw keeping the first one's arguments (C01), an empty WHERE clause passing the missing-condition guard
 (C09), a shadowed field with a database default returned into twice (C03); plus KF-C14-3 and KF-C17-13/14.
-Three seeded changes lost their effect through such a repair and were retired (C13-i, C09-j, C09-k).
+Round 6: a scope that returns a session leaves the default transaction open (C05, reported by a tester as
+an aside), a failed SAVEPOINT poisons the enclosing handle (C04), doubly wrapped prepared transactions send
+save points through the statement cache (C14), empty named byte slices stored as NULL (C03), Model(slice)
+with a keyless last element drops the key condition (C10), AutoMigrate argument order (C20); plus
+KF-C17-15..18. Four seeded changes lost their effect through such a repair and were retired (C13-i, C09-j,
+C09-k, C03-m).
 ''')
 p = '/verif/DESIGN.md'
 s = open(p).read()
